@@ -12,8 +12,11 @@ use std::{io, num, str};
 
 pub mod serde_json {
     use vstd::prelude::*;
+    use super::*;
     pub mod error { pub struct Error { pub x: u8 } }
     pub use error::Error;
+    // serialising a plain record cannot fail (ASSUMED); the bytes are a function of the value
+    #[verifier::external_body] pub fn to_vec<T>(v: &T) -> (r: Result<Vec<u8>, Error>) ensures r matches Ok(b) && b@ == json_enc(*v) { unimplemented!() }
 }
 pub mod server {
     use vstd::prelude::*;
@@ -199,8 +202,10 @@ pub struct World {
     pub ghost fail_point: int,
     // file system as seen by `run` (unit tracking): path -> content; every effect is a crash point
     pub ghost fs: Map<Seq<char>, Seq<u8>>,
-    pub ghost ptr: Seq<char>,
-    pub ghost last: Option<Seq<u8>>,
+    pub ghost ptr: Seq<char>,          // path of <out>/tracking/run.json
+    pub ghost last: Option<Seq<u8>>,   // its content when the current operation began (None: absent)
+    pub ghost ptr_new: Seq<u8>,        // the complete new content the current operation is allowed to commit
+    pub ghost io_faults: nat,          // environmental I/O failures so far
     // lock (unit cli)
     pub ghost lock_held: bool,
 }
@@ -308,5 +313,67 @@ impl tokio::sync::MutexGuard<tokio::net::TcpStream> {
     #[verifier::external_body] pub async fn write_all(&mut self, b: &[u8], Tracked(w): Tracked<&mut World>) -> (r: Result<(), std::io::Error>)
         ensures r is Ok ==> final(w).tail == old(w).tail + b@,
             final(w).tail_locks == old(w).tail_locks, final(w).sink == old(w).sink, final(w).cc_errs == old(w).cc_errs,
+    { unimplemented!() }
+}
+
+// ---------------- file system effects of `run` (unit tracking): every effect is a possible crash point ----------------
+// `fs` maps a path to the content of the file there.  A multi-byte write is not atomic (any prefix may be on disk when it
+// fails or the process dies); `rename` is atomic.  `io_faults` counts environmental failures (EIO, ENOSPC, permissions):
+// an operation that fails for a reason visible in `fs` (create_new on an existing file, open of a missing file) does not count.
+pub uninterp spec fn path_with_ext(p: Seq<char>, ext: Seq<char>) -> Seq<char>;
+pub uninterp spec fn json_enc<T>(t: T) -> Seq<u8>;
+// the run pointer is recoverable: absent or old content (as at entry), or the complete new content
+pub open spec fn recoverable(w: World) -> bool {
+    if w.fs.dom().contains(w.ptr) { Some(w.fs[w.ptr]) == w.last || w.fs[w.ptr] == w.ptr_new } else { w.last is None }
+}
+impl path::PathBuf {
+    #[verifier::external_body] pub fn with_extension(&self, ext: &str) -> (r: path::PathBuf) ensures r@ == path_with_ext(self@, ext@), r@ != self@ { unimplemented!() }
+}
+pub mod fs {
+    use vstd::prelude::*;
+    use super::*;
+    pub struct File { pub ghost p: Seq<char> }
+    pub struct OpenOptions { pub ghost rd: bool, pub ghost wr: bool, pub ghost tr: bool, pub ghost cr: bool, pub ghost cn: bool }
+    impl OpenOptions {
+        #[verifier::external_body] pub fn new() -> (r: Self) ensures !r.rd && !r.wr && !r.tr && !r.cr && !r.cn { unimplemented!() }
+        #[verifier::external_body] pub fn read(self, b: bool) -> (r: Self) ensures r == (OpenOptions { rd: b, ..self }) { unimplemented!() }
+        #[verifier::external_body] pub fn write(self, b: bool) -> (r: Self) ensures r == (OpenOptions { wr: b, ..self }) { unimplemented!() }
+        #[verifier::external_body] pub fn truncate(self, b: bool) -> (r: Self) ensures r == (OpenOptions { tr: b, ..self }) { unimplemented!() }
+        #[verifier::external_body] pub fn create(self, b: bool) -> (r: Self) ensures r == (OpenOptions { cr: b, ..self }) { unimplemented!() }
+        #[verifier::external_body] pub fn create_new(self, b: bool) -> (r: Self) ensures r == (OpenOptions { cn: b, ..self }) { unimplemented!() }
+        // open(2): creates an empty file (create / create_new), truncates an existing one (truncate); fails without an
+        // environmental fault exactly when create_new meets an existing file or neither create flag is set and the file is missing
+        #[verifier::external_body] pub fn open<P: PathLike>(self, p: &P, Tracked(w): Tracked<&mut World>) -> (r: Result<File, std::io::Error>)
+            requires recoverable(*old(w)),
+            ensures
+                final(w).ptr == old(w).ptr, final(w).last == old(w).last, final(w).ptr_new == old(w).ptr_new, final(w).io_faults >= old(w).io_faults,
+                r matches Ok(f) ==> f.p == p.pview() && final(w).io_faults == old(w).io_faults && final(w).fs == old(w).fs.insert(p.pview(),
+                    if self.wr && (self.tr || !old(w).fs.dom().contains(p.pview())) { Seq::<u8>::empty() } else { old(w).fs[p.pview()] })
+                    && (old(w).fs.dom().contains(p.pview()) || self.cr || self.cn) && !(self.cn && old(w).fs.dom().contains(p.pview())),
+                r is Err ==> final(w).fs == old(w).fs,
+                (r is Err && final(w).io_faults == old(w).io_faults) ==>
+                    (self.cn && old(w).fs.dom().contains(p.pview())) || (!self.cr && !self.cn && !old(w).fs.dom().contains(p.pview())),
+        { unimplemented!() }
+    }
+    impl File {
+        // std::io::Write::write_all: the file ends up holding the data, or (on failure / crash) an arbitrary prefix of it appended
+        #[verifier::external_body] pub fn write_all(&mut self, data: &[u8], Tracked(w): Tracked<&mut World>) -> (r: Result<(), std::io::Error>)
+            requires recoverable(*old(w)), old(w).fs.dom().contains(old(self).p),
+            ensures
+                final(self).p == old(self).p, final(w).ptr == old(w).ptr, final(w).last == old(w).last, final(w).ptr_new == old(w).ptr_new,
+                final(w).fs.dom() == old(w).fs.dom(), forall|q: Seq<char>| q != old(self).p ==> final(w).fs[q] == old(w).fs[q],
+                r is Ok ==> final(w).fs[old(self).p] == old(w).fs[old(self).p] + data@ && final(w).io_faults == old(w).io_faults,
+                r is Err ==> final(w).io_faults == old(w).io_faults + 1,
+                // torn write: some prefix of the data was appended
+                exists|k: int| 0 <= k <= data@.len() && #[trigger] final(w).fs[old(self).p] == old(w).fs[old(self).p] + data@.take(k),
+        { unimplemented!() }
+    }
+    // rename(2): atomic replacement
+    #[verifier::external_body] pub fn rename<P: PathLike, Q: PathLike>(from: &P, to: &Q, Tracked(w): Tracked<&mut World>) -> (r: Result<(), std::io::Error>)
+        requires recoverable(*old(w)),
+        ensures
+            final(w).ptr == old(w).ptr, final(w).last == old(w).last, final(w).ptr_new == old(w).ptr_new,
+            r is Ok ==> old(w).fs.dom().contains(from.pview()) && final(w).fs == old(w).fs.remove(from.pview()).insert(to.pview(), old(w).fs[from.pview()]) && final(w).io_faults == old(w).io_faults,
+            r is Err ==> final(w).fs == old(w).fs && (final(w).io_faults == old(w).io_faults + 1 || (final(w).io_faults == old(w).io_faults && !old(w).fs.dom().contains(from.pview()))),
     { unimplemented!() }
 }
